@@ -6,6 +6,7 @@ import (
 	"errors"
 	"flag"
 	"fmt"
+	quickbuilder "github.com/ipfs/go-unixfsnode/data/builder/quick"
 	"io"
 	"math/rand"
 	"os"
@@ -226,7 +227,10 @@ type buildVariant struct {
 	failCommit  int
 	tag         string
 	eofWithData bool
-	readFail    int // k+1: the source reader fails after k bytes (0 = never)
+	readFail    int    // k+1: the source reader fails after k bytes (0 = never)
+	pre         int    // files: the source is a seekable reader whose first bytes the caller has already consumed (1 = bytes.Reader, 2 = *os.File)
+	altRoot     int    // recursive: 1 = the same tree materialised under another (deeper) directory, 2 = the root given as a relative path
+	werr        string // kind of the injected write error ("" = a plain I/O error, "eof" = io.EOF itself, "eofwrap")
 }
 
 // oneBuild runs a single build variant on a fresh store.
@@ -236,6 +240,7 @@ func oneBuild(bc *BuildCase, v buildVariant, cc *caseClasses, content []byte, tr
 	st.logWrites = true
 	st.failOpenAt = v.failOpen
 	st.failCommitAt = v.failCommit
+	st.writeErrKind = v.werr
 	ls := st.LinkSystem()
 	var lnk ipld.Link
 	var size uint64
@@ -256,6 +261,27 @@ func oneBuild(bc *BuildCase, v buildVariant, cc *caseClasses, content []byte, tr
 			if v.readFail > 0 {
 				r = &failingReader{r: r, left: v.readFail - 1}
 			}
+			if v.pre > 0 {
+				// the file is what follows a header the caller has read: the source's offset is not 0 when it is handed over
+				hdr := []byte("HEADER-ALREADY-CONSUMED-BY-THE-CALLER\n")
+				all := append(append([]byte{}, hdr...), content...)
+				if v.pre == 1 {
+					br := bytes.NewReader(all)
+					br.Seek(int64(len(hdr)), io.SeekStart)
+					r = br
+				} else {
+					f, ferr := os.CreateTemp("", "vh-pre-")
+					if ferr != nil {
+						err = ferr
+						return
+					}
+					defer os.Remove(f.Name())
+					defer f.Close()
+					f.Write(all)
+					f.Seek(int64(len(hdr)), io.SeekStart)
+					r = f
+				}
+			}
 			lnk, size, err = builder.BuildUnixFSFile(r, bc.Chunker, ls)
 		case "symlink":
 			lnk, size, err = builder.BuildUnixFSSymlink(bc.Target, ls)
@@ -271,9 +297,57 @@ func oneBuild(bc *BuildCase, v buildVariant, cc *caseClasses, content []byte, tr
 			if err == nil {
 				lnk = cidlink.Link{Cid: c}
 			}
+		case "quicktree":
+			// the quick builder producing children and parents in one Store call: bc.Len small files (every 50th one
+			// multi-block), a sub-directory holding the first ten of them, and the root directory of everything
+			builder.DefaultLinksPerBlock = 174
+			err = quickbuilder.Store(ls, func(b *quickbuilder.Builder) error {
+				all, sub := map[string]quickbuilder.Node{}, map[string]quickbuilder.Node{}
+				for i := 0; i < bc.Len; i++ {
+					data := []byte(fmt.Sprintf("quick file %d", i))
+					if i%50 == 7 {
+						data = makeContent("random", 300000+i, int64(i))
+					}
+					n := b.NewBytesFile(data)
+					all[fmt.Sprintf("f%05d", i)] = n
+					if i < 10 {
+						sub[fmt.Sprintf("s%d", i)] = n
+					}
+				}
+				all["sub"] = b.NewMapDirectory(sub)
+				root := b.NewMapDirectory(all)
+				lnk = root.Link()
+				s, _ := root.Size()
+				size = uint64(s)
+				return nil
+			})
 		case "recursive":
 			builder.DefaultLinksPerBlock = bc.W
-			lnk, size, err = builder.BuildUnixFSRecursive(filepath.Join(treeDir, bc.Tree.Name), ls)
+			root := filepath.Join(treeDir, bc.Tree.Name)
+			switch v.altRoot {
+			case 1:
+				d2, derr := os.MkdirTemp("", "vh-tree2-")
+				if derr != nil {
+					err = derr
+					return
+				}
+				defer os.RemoveAll(d2)
+				deep := filepath.Join(d2, "some", "other place")
+				if err = os.MkdirAll(deep, 0o755); err != nil {
+					return
+				}
+				if err = bc.Tree.materialize(deep); err != nil {
+					return
+				}
+				root = filepath.Join(deep, bc.Tree.Name)
+			case 2:
+				if cwd, cerr := os.Getwd(); cerr == nil {
+					if rel, rerr := filepath.Rel(cwd, root); rerr == nil {
+						root = rel
+					}
+				}
+			}
+			lnk, size, err = builder.BuildUnixFSRecursive(root, ls)
 		}
 	})
 	if pm != nil {
@@ -380,6 +454,16 @@ func runBuildCase(bc *BuildCase, tr *Tr) error {
 	for i := 0; i < bc.Repeat; i++ {
 		emit(buildVariant{input: 1, order: bc.Entries, tag: fmt.Sprintf("repeat-%d", i)})
 	}
+	if bc.Repeat > 0 && bc.What == "file" {
+		// the same content behind a header the caller has already consumed (seekable sources at a non-zero offset)
+		emit(buildVariant{input: 1, order: bc.Entries, pre: 1, tag: "pre-bytesreader"})
+		emit(buildVariant{input: 1, order: bc.Entries, pre: 2, tag: "pre-osfile"})
+	}
+	if bc.Repeat > 0 && bc.What == "recursive" {
+		// the same tree somewhere else on disk, and its root spelled as a relative path
+		emit(buildVariant{input: 1, order: bc.Entries, altRoot: 1, tag: "other-directory"})
+		emit(buildVariant{input: 1, order: bc.Entries, altRoot: 2, tag: "relative-root"})
+	}
 	for i, o := range bc.Orders {
 		emit(buildVariant{input: 1, order: o, tag: fmt.Sprintf("order-%d", i)})
 	}
@@ -416,11 +500,17 @@ func runBuildCase(bc *BuildCase, tr *Tr) error {
 			}
 			return ks
 		}
+		// the value of the storage error must not matter: every position with a plain I/O error and with errors that
+		// are / wrap io.EOF (a remote store whose connection closed)
 		for _, k := range pick(nOpens) {
-			emit(buildVariant{input: 1, order: bc.Entries, failOpen: k, tag: fmt.Sprintf("failopen-%d", k)})
+			for _, we := range []string{"", "eof", "eofwrap"} {
+				emit(buildVariant{input: 1, order: bc.Entries, failOpen: k, werr: we, tag: fmt.Sprintf("failopen-%d-%s", k, we)})
+			}
 		}
 		for _, k := range pick(nCommits) {
-			emit(buildVariant{input: 1, order: bc.Entries, failCommit: k, tag: fmt.Sprintf("failcommit-%d", k)})
+			for _, we := range []string{"", "eof", "eofwrap"} {
+				emit(buildVariant{input: 1, order: bc.Entries, failCommit: k, werr: we, tag: fmt.Sprintf("failcommit-%d-%s", k, we)})
+			}
 		}
 	}
 	return nil
@@ -744,6 +834,31 @@ func init() {
 					}
 				}
 			}
+		case "threshold":
+			// plain / auto-sharded directories whose size estimate (sum of name length + link length) lands *exactly* on
+			// the 256 KiB sharding threshold after a proper prefix of the entries: entries of weight 64 and 128
+			for _, wn := range [][2]int{{28, 4095}, {28, 4096}, {28, 4097}, {28, 4106}, {28, 4500}, {92, 2047}, {92, 2048}, {92, 2049}, {92, 2100}} {
+				n := wn[1]
+				u := make([]string, n)
+				ids := make([]int, n)
+				for i := range u {
+					u[i] = fmt.Sprintf("%0*d", wn[0], i)
+					ids[i] = i + 1
+				}
+				for _, what := range []string{"dir", "quickdir"} {
+					bc := &BuildCase{Fam: "build", ID: fmt.Sprintf("threshold-%s-%d-%d", what, wn[0], n), What: what, Universe: u, Entries: ids, Repeat: 1}
+					if err := runBuildCase(bc, tr); err != nil {
+						return err
+					}
+				}
+			}
+		case "quicktrees":
+			for _, n := range []int{0, 1, 12, 300, 700, 1200} {
+				bc := &BuildCase{Fam: "build", ID: fmt.Sprintf("quicktree-%d", n), What: "quicktree", Len: n, Repeat: 1}
+				if err := runBuildCase(bc, tr); err != nil {
+					return err
+				}
+			}
 		case "misc":
 			// a source reader that fails at / around the read-ahead and chunk boundaries of the default and a content-defined chunker
 			for i, ch := range []string{"", "size-262144", "rabin-16-32-64", "buzhash"} {
@@ -764,8 +879,9 @@ func init() {
 				ch := []string{"size-%d", "rabin-32-64-128", "rabin", "buzhash", ""}[r.Intn(5)]
 				L := r.Intn(1 << 15)
 				if ch == "size-%d" {
-					ch = fmt.Sprintf("size-%d", 1+r.Intn(2000))
-					L = r.Intn(1 << 17)
+					cs := 1 + r.Intn(2000)
+					ch = fmt.Sprintf("size-%d", cs)
+					L = r.Intn(min(1<<17, cs*2500) + 1) // at most ~2500 chunks: the trace line carries the tree shape
 				} else if ch != "rabin-32-64-128" {
 					L = r.Intn(3 << 20)
 				}
